@@ -28,6 +28,10 @@ type c16Case struct {
 	QFIToTC   map[uint8]uint8 `json:"qfitc,omitempty"`
 	Ops       []model.Op      `json:"ops"`
 	REST      bool            `json:"rest,omitempty"`
+	// AccessCIDR / UEPool: the configured N3 address and UE pool as an operator may write them - with a prefix shorter
+	// than /32 and host bits set ("" = the canonical defaults); both become LPM keys of the interfaces table
+	AccessCIDR string `json:"access,omitempty"`
+	UEPool     string `json:"uepool,omitempty"`
 }
 
 func genAddr(t *rapid.T, label string) string {
@@ -64,6 +68,8 @@ func genC16(t *rapid.T) c16Case {
 			}
 		}
 	}
+	c.AccessCIDR = rapid.SampledFrom([]string{"", "", "198.18.0.1/24", "198.18.0.1/31", "198.18.0.1/8"}).Draw(t, "access")
+	c.UEPool = rapid.SampledFrom([]string{"", "", "10.250.0.1/16", "10.250.77.3/17"}).Draw(t, "uepool")
 	c.Ops = append(c.Ops, opAssoc(0, 1))
 	nSess := rapid.IntRange(1, 3).Draw(t, "nsess")
 	precs := rapid.OneOf(rapid.Uint32Range(0, 65535), rapid.SampledFrom([]uint32{0, 1, 2, 255, 256, 65533, 65534, 65535}))
@@ -141,6 +147,12 @@ func runC16(c c16Case, ev *Ev) error {
 		conf.P4rtcIface.SliceID = c.Slice
 		conf.P4rtcIface.DefaultTC = c.DefaultTC
 		conf.P4rtcIface.QFIToTC = c.QFIToTC
+		if c.AccessCIDR != "" {
+			conf.P4rtcIface.AccessIP = c.AccessCIDR
+		}
+		if c.UEPool != "" {
+			conf.CPIface.UEIPPool = c.UEPool
+		}
 	}})
 	if err != nil {
 		return fmt.Errorf("INFRA: %v", err)
